@@ -14,9 +14,9 @@ def exHistory : List EventB :=
    .other (.createBranch (.dev 4 (some 3)) 0),
    .other (.createBranch (.dev 5 (some 1)) 0),
    .other (.extSet "feature/a" [0] false),
-   .pr noBuilds ⟨1, "feature/a", .dev 4 (some 3)⟩ .final [],
+   .pr noBuilds ⟨1, "feature/a", .dev 4 (some 3), false⟩ .final [],
    .other (.extSet "feature/b" [0] false),
-   .pr noBuilds ⟨2, "feature/b", .dev 5 (some 1)⟩ .final []]
+   .pr noBuilds ⟨2, "feature/b", .dev 5 (some 1), false⟩ .final []]
 
 def exEmpty : Sys := ⟨Graph.empty, [], [], [], [], true, false⟩
 
